@@ -351,6 +351,10 @@ def _relayout(x, layout):
         return np.ascontiguousarray(x[::-1])[::-1]
     if layout == "transposed-base" and x.ndim >= 2:
         return np.ascontiguousarray(x.T).T
+    if layout == "readonly":
+        b = np.array(x, copy=True, order="C")
+        b.flags.writeable = False
+        return b
     return np.array(x, copy=True, order="C")
 
 
@@ -420,7 +424,7 @@ def make_machine(col):
             self._do({"op": "consume", "seed": seed, "lamda": lamda, "solver": solver})
 
         @precondition(lambda self: self.sim is not None and len(self.sim.inputs) > 0)
-        @rule(k=st.integers(0, 50), layout=st.sampled_from(["copy", "fortran", "strided", "reversed", "transposed-base"]))
+        @rule(k=st.integers(0, 50), layout=st.sampled_from(["copy", "fortran", "strided", "reversed", "transposed-base", "readonly"]))
         def reapply_equal(self, k, layout):
             self._do({"op": "reapply_equal", "k": k, "layout": layout})
 
